@@ -388,8 +388,8 @@ func c09Race() []RaceBody {
 								errs <- fmt.Errorf("get %s%d: %v (%T)", key, j, res.Error, res.Error)
 								return
 							}
-						case <-time.After(20 * time.Second):
-							errs <- fmt.Errorf("get %s%d was never completed", key, j)
+						case <-time.After(raceWait):
+							errs <- fmt.Errorf("get %s%d was never completed\n%s", key, j, allStacks())
 							return
 						}
 					}
